@@ -28,6 +28,16 @@ S = {
  'C15_c': ('C15', 'random/rand.go UintN mask built with the 32-bit bit-smearing trick (missing >> 32)', 'n > 2^32 with 32 zero bits below the top bit of n-1 (2^40+1 ...)', 'C15 (UintN_uniform)', ''),
  'C18_c': ('C18', 'bls_thresholdsign.go VerifyAndAdd verifies without the lock and does not re-check "not yet enough" before inserting', 'two adders for different new valid signers overlapping when one slot is left', 'C18 (add_add_last_slot, add_then_sig__add)', ''),
  'C19_c': ('C19', 'bls.go public key caches its encoding on first Encode()', 'first BLSVerifyPOP / Encode of a key object from two goroutines at once', 'C19 (bls_op2)', 'inputs of the operation under test are prepared with twin objects so that the shared objects are fresh'),
+ 'C02_d': ('C02', 'bls_core.c bls_verifyPerDistinctKey sums hashes in batches of 64 through a fixed stack array; each batch overwrites the previous sum', 'one key paired with at least 65 messages on the per-distinct-key path', 'MISSED by C02 (outside its bound: n <= 4, one-key groups up to 17)', 'wide one-key cases (9 / 17 messages) added; a group of 65 is beyond what the model executes in reasonable time -- recorded as a miss'),
+ 'C04_d': ('C04', 'bls_multisig.go AggregateBLSPrivateKeys pre-fills the public key from cached input public keys; the all-cached flag only reflects the last key', 'inputs in a mixed hidden state: the last key had PublicKey() called, an earlier one not', 'C04 (agg_n2_*, agg_n3_*)', 'fresh key objects with none / last / first public key precomputed added to the harness; replay keeps recorded failures when the tape runs out'),
+ 'C06_d': ('C06', 'bls_thresholdsign.go: post-verification skipped when a counter of verified shares reaches the stored count; late (not stored) verified shares are counted', 'a wrong TrustedAdd share, threshold reached, then further valid VerifyAndAdd calls, then ThresholdSignature', 'C06 (stateful_mixed_*)', 'mixed trusted / verified sequences with late shares added'),
+ 'C09_d': ('C09', 'bls_thresholdsign.go validIndex takes the byte-sized index type: range check after truncation', 'indices 256, 257, -256, 1<<32 ... in VerifyShare / HasShare / TrustedAdd / VerifyAndAdd', 'C09 (thr_stateful_*: symbolic 64-bit index)', ''),
+ 'C10_d': ('C10', 'dkg_jointfeldman.go End: the two-timeouts check moved after the unanswered-complaint finalisation of the same iteration', 'Joint-Feldman, a pending unanswered complaint against dealer 0, End called before both timeouts (rejected, but dealer 0 already disqualified)', 'C10 (p2_r0_s6_op2)', 'automaton state "one timeout with a pending complaint against a properly dealing dealer" added'),
+ 'C12_d': ('C12', 'bls.go generatePrivateKey takes the HKDF secret buffer from a sync.Pool; Put is deferred after the wipe, so it runs before it', 'two concurrent BLS key generations (the first call wipes the buffer the second already owns)', 'C12 (concurrent_bls)', 'sync.Pool model with a use-after-Put check; concurrent key-generation harness replayed natively under the race detector with a slow entropy source'),
+ 'C14_d': ('C14', 'random/chacha20.go RestoreChacha20PRG narrows the 64-bit byte counter to uint32 before splitting it', 'Store/Restore with a stored byte counter >= 2^32', 'C14 (restore_any_*: symbolic 64-bit counter)', ''),
+ 'C17_d': ('C17', 'spock.go identity guard refuses a pair only when key AND proof are the identity', 'both keys the identity with non-identity proofs', 'C17 (honest_3)', 'double-identity-key cases with arbitrary proofs added'),
+ 'C18_d': ('C18', 'bls_thresholdsign.go TrustedAdd decides "not enough yet" under the read lock and inserts under the write lock without re-checking', 'two TrustedAdd calls of distinct new signers crossing the threshold together', 'C18 (add_add_last_slot, add_then_sig__add)', ''),
+ 'C20_d': ('C20', 'hash: final padding delegated to a per-build helper; the purego variant assumes the rest of the buffer is zero', '-tags purego, a streamed Write ending mid-block, a later Write crossing the block boundary, then SumHash', 'C20 (purego part: split_*, api_*); the default-build part stays clean', 'builtin clear supported'),
 }
 for sid, (prop, change, needs, caught, strengthened) in S.items():
     d = os.path.join(V, 'seeded', sid)
